@@ -24,7 +24,37 @@ from collections import Counter
 VERIF = os.path.dirname(os.path.dirname(os.path.abspath(__file__)))
 REPO = os.path.realpath(os.environ.get('VERIF_REPO', '/repo'))
 NPROC = int(os.environ.get('VERIF_NPROC', '16'))
-CASE_TIMEOUT = int(os.environ.get('VERIF_CASE_TIMEOUT', '120'))
+CASE_TIMEOUT = int(os.environ.get('VERIF_CASE_TIMEOUT', '60'))
+
+
+_scratch_root = None
+
+
+def scratch_root():
+    """Per-run scratch directory (tmpfs when available), created by the parent and removed when the run ends."""
+    global _scratch_root
+    if _scratch_root is None:
+        env = os.environ.get('VERIF_SCRATCH')
+        if env and os.path.isdir(env):
+            _scratch_root = env
+        else:
+            import tempfile
+            base = '/dev/shm' if os.path.isdir('/dev/shm') and os.access('/dev/shm', os.W_OK) else tempfile.gettempdir()
+            _scratch_root = tempfile.mkdtemp(prefix='vfscratch.', dir=base)
+            os.environ['VERIF_SCRATCH'] = _scratch_root
+    return _scratch_root
+
+
+def scratch_dir():
+    d = os.path.join(scratch_root(), str(os.getpid()))
+    os.makedirs(d, exist_ok=True)
+    return d
+
+
+def cleanup_scratch():
+    import shutil
+    if _scratch_root and os.path.isdir(_scratch_root):
+        shutil.rmtree(_scratch_root, ignore_errors=True)
 
 
 class HarnessError(Exception):
@@ -155,12 +185,14 @@ class Collector:
         self.samples = []
         self.keep_samples = keep_samples
         self.timeouts = 0
-        self.seen = set()
+        self.timeout_cases = []
 
     def __call__(self, case):
         out = run_check(self.mod, case)
         if out == 'timeout':
             self.timeouts += 1
+            if len(self.timeout_cases) < 3:
+                self.timeout_cases.append(case)
             return
         self.evaluations += 1
         if out.skipped:
@@ -196,11 +228,14 @@ class Collector:
             'failures': self.failures,
             'samples': self.samples,
             'timeouts': self.timeouts,
+            'timeout_cases': self.timeout_cases,
         }
 
 
 def run_check(mod, case):
     """Runs mod.check(case) under a watchdog. Returns Outcome or 'timeout'. Oracle exceptions -> HarnessError."""
+    from . import common
+    common.WIDEN.reset()
     signal.signal(signal.SIGALRM, _alarm)
     signal.alarm(CASE_TIMEOUT)
     try:
@@ -216,8 +251,6 @@ def run_check(mod, case):
     except Bad as e:
         out = Outcome()
         out.fail(e.kind, e.msg)
-    except RecursionError:
-        raise
     return out
 
 
@@ -344,8 +377,12 @@ def shrink(mod, case, key, budget):
     spec = getattr(mod, 'SHRINK', {})
     tries = 0
 
+    valid = getattr(mod, 'valid', None)
+
     def fails(c):
         nonlocal tries
+        if valid is not None and not valid(c):
+            return False
         tries += 1
         try:
             out = run_check(mod, c)
@@ -454,6 +491,7 @@ def check_repo_import():
 def run_property(pid, tier, seed, replay=None):
     t0 = time.time()
     check_repo_import()
+    scratch_root()
     mod = load_prop(pid)
     known = load_known()
     if replay is not None:
@@ -486,7 +524,9 @@ def run_property(pid, tier, seed, replay=None):
                     return 2
                 results.append(res)
 
+    timeout_cases = []
     for res in results:
+        timeout_cases.extend(res.get('timeout_cases', []))
         total['evaluations'] += res['evaluations']
         total['timeouts'] += res['timeouts']
         labels.update(res['labels'])
@@ -527,6 +567,9 @@ def run_property(pid, tier, seed, replay=None):
         path = write_replay(mod.ID, key, small, d2)
         violations.append((key, path, cnt, d2))
 
+    for i, tc in enumerate(timeout_cases[:5]):
+        tp = write_replay(mod.ID, f'timeout-{i}', tc, f'watchdog ({CASE_TIMEOUT}s) expired: inconclusive, not a violation')
+        sys.stdout.write(f"INCONCLUSIVE property={mod.ID} case exceeded the {CASE_TIMEOUT}s watchdog: {tp}\n")
     printed = set()
     for ent, key, cnt in known_hits:
         tag = ent.get('id', key)
